@@ -20,7 +20,7 @@ def judge(ctx, pid):
             key = re.sub(r"\{closure#\d+\}", "{closure}", f.key)
             if key not in known:
                 out.append("%s %s:%s" % (res.rule, f.file, f.line))
-        for (n, c, fl) in res.floor_failures():
+        for (n, c, fl) in res.floor_failures(reference=bool(getattr(ctx, '_is_ref', False))):
             out.append("%s floor %s %d<%d" % (res.rule, n, c, fl))
     return out
 
